@@ -3,6 +3,8 @@
 package c06
 
 import (
+	"strconv"
+	"regexp"
 	"bytes"
 	"encoding/hex"
 	"fmt"
@@ -183,6 +185,8 @@ func preserved(c *core.Ctx, sig string, enc string, in []byte, msg any, t wire.N
 	return true
 }
 
+var opCodeRe = regexp.MustCompile(`("tag":\s*"Operation",\s*"type":\s*"Enumeration",\s*"value":\s*)"0x([0-9A-Fa-f]{8})"`)
+
 func genericPayload(g *gen.G, registeredTags bool) wire.Node {
 	n := st(0)
 	for i, k := 0, g.R.Intn(5); i < k; i++ {
@@ -264,7 +268,7 @@ func Spec() *core.Spec {
 			"9 object types in Get/Export responses and Register/Import requests plus unknown and mismatching object type codes; 50 standard attribute names x 10 TTLV value types; custom/arbitrary attribute names x 10 types; payload types registered for a vendor operation at run time, after the first decode, in a fresh process. " +
 			"Inputs are built by the independent generator (binary) or from the generic tree (XML/JSON). 8 goroutines decoding goroutine-specific custom attributes at once; a vendor operation NAME registered at run time followed by all built-in operations written by name by independent writers; distinct = distinct (class, operation/object/attribute, direction, encoding, value type) combinations",
 		Assumptions: []string{"operation/object/attribute type tables in harness/gen/ops.go are written from the KMIP 1.4 specification"},
-		Required:    []string{"reused_targets", "typed_responses.status2", "typed_responses.status3", "typed_payloads", "opaque_payloads", "objects_typed", "objects_unknown_rejected", "attrs_typed", "attrs_wrong_type_rejected", "attrs_opaque", "late_registration_decodes", "late_registration_named_decodes", "late_registration_object_decodes", "re_registration_decodes", "split_keys_without_prime_field_size", "concurrent_opaque_decodes"},
+		Required:    []string{"reused_targets", "typed_responses.status2", "typed_responses.status3", "typed_payloads", "opaque_payloads", "objects_typed", "objects_unknown_rejected", "attrs_typed", "attrs_wrong_type_rejected", "attrs_opaque", "late_registration_decodes", "late_registration_named_decodes", "late_registration_object_decodes", "re_registration_decodes", "split_keys_without_prime_field_size", "opaque_payloads.numeric-operation-code", "concurrent_opaque_decodes"},
 		Families: []core.Family{
 			{Name: "ops-typed", N: nOf(27*2*3*5*3, 27*2*3*5*600), Run: func(c *core.Ctx, r *core.Rand, i int) {
 				op := &gen.Ops[i%27]
@@ -340,6 +344,18 @@ func Spec() *core.Spec {
 					t = reqTree(minor, int64(code), pl)
 				}
 				in := Input(enc, t)
+				if enc == "json" && i%4 == 1 {
+					// the operation code as a JSON number (accepted by the reader for every enumeration)
+					in = opCodeRe.ReplaceAllFunc(in, func(m []byte) []byte {
+						sm := opCodeRe.FindSubmatch(m)
+						v, err := strconv.ParseUint(string(sm[2]), 16, 32)
+						if err != nil {
+							return m
+						}
+						c.Count("opaque_payloads.numeric-operation-code", 1)
+						return []byte(string(sm[1]) + strconv.FormatUint(v, 10))
+					})
+				}
 				label := fmt.Sprintf("unknown operation %#x %s", uint32(code), dirName(resp))
 				cls := "random"
 				if i/6 < 16 {
